@@ -158,8 +158,8 @@ MOD = '''---- MODULE MC_TraceArray ----
 EXTENDS TraceArray
 c_RowIds == 1..%d
 c_Ints == -100000..100000
-c_Keys == {"k1", "k2"}
-c_Vals == {1, 2}
+c_Keys == {%s}
+c_Vals == 1..%d
 c_Ops == {"append", "truncate", "setitem", "mode", "reopen", "meta", "delete", "metamode"}
 c_Zero == {0}
 c_Modes == {"r", "r+"}
@@ -168,7 +168,7 @@ c_Focus == "%s"
 '''
 
 
-def validate(traces, focus='all', timeout=1800):
+def validate(traces, focus='all', timeout=1800, nids=NIDS, nkeys=2, nvals=2):
     """returns (TLC result, list of furthest explained positions per trace)"""
     wd = tlc.workdir()
     tf = os.path.join(wd, 'traces.ndjson')
@@ -176,7 +176,7 @@ def validate(traces, focus='all', timeout=1800):
         for t in traces:
             f.write(json.dumps({'init': t['init'], 'events': t['events']}) + '\n')
     with open(os.path.join(wd, 'MC_TraceArray.tla'), 'w') as f:
-        f.write(MOD % (NIDS, focus))
+        f.write(MOD % (nids, ', '.join('"k%d"' % i for i in range(1, nkeys + 1)), nvals, focus))
     r = tlc.run('MC_TraceArray', CFG, wd=wd, workers=1, coverage=False, env={'TRACES': tf}, timeout=timeout, heap='8g')
     if r.errors:
         raise tlc.TlcError('trace validation failed to run: %s\n%s' % (r.errors[:2], r.out[-2000:]))
